@@ -116,6 +116,21 @@ def run_case(case, mods):
                             v = clock.next_bar(pf(ws[2]))
                         elif k == 'ntog':
                             v = clock.next_time_on_grid(pnum(ws[2]), pnum(ws[3]), pnum(ws[4]))
+                        elif k == 'ttnb':
+                            # beats + time_to_next_beat(quant): the grid point the clock itself computes
+                            v = clock.beats + clock.time_to_next_beat(Quant(pnum(ws[2]), pnum(ws[3])))
+                        elif k == 'playbar':
+                            snapshot = snap(clock)
+
+                            def make_bar_child(slot, snapshot):
+                                def child_fn():
+                                    out[slot] = 'v:' + fr(clock.beats) + snapshot     # the beat it is woken at
+                                    return
+                                    yield
+                                return child_fn
+                            clock.play_next_bar(routine(make_bar_child(i, snapshot)))
+                            pending.append(i)
+                            continue
                         elif k == 'playat':
                             slot = i
                             snapshot = snap(clock)
